@@ -57,15 +57,19 @@ EvGen(c, ts, n) == [c |-> c, types |-> ts, name |-> n, fac |-> FALSE, desc |-> "
 
 (* Context.__init__: the child takes a snapshot of the parent's non-generated resources and of its factory table *)
 Snapshot(p) == [k \in Keys |-> IF ~IsNone(res[p][k]) /\ ~res[p][k].gen THEN res[p][k] ELSE NoneR]
-Create(c, p) ==
-  /\ cstate[c] = "unborn" /\ (IF c = 1 THEN TRUE ELSE Born(c - 1))
-  /\ IF c = 1 THEN p = 0 ELSE p \in 1..(c - 1) /\ Usable(p)
+CreateAt(c, p) ==
   /\ cstate' = [cstate EXCEPT ![c] = IF Life THEN "inactive" ELSE "open"]
   /\ parent' = [parent EXCEPT ![c] = p]
   /\ res' = [res EXCEPT ![c] = IF p = 0 THEN res[c] ELSE Snapshot(p)]
   /\ fac' = [fac EXCEPT ![c] = IF p = 0 THEN fac[c] ELSE fac[p]]
   /\ UNCHANGED <<td, ending, regs>>
   /\ obs' = [a |-> "Create", c |-> c, p |-> p, r |-> "ok", ev |-> <<>>]
+\* the bounded models create contexts in order, context 1 as the only root, under a usable parent; recorded executions
+\* (Trace_CtxSuite) use CreateAt directly: any number of roots, any already created parent
+Create(c, p) ==
+  /\ cstate[c] = "unborn" /\ (IF c = 1 THEN TRUE ELSE Born(c - 1))
+  /\ IF c = 1 THEN p = 0 ELSE p \in 1..(c - 1) /\ Usable(p)
+  /\ CreateAt(c, p)
 
 (* Context.__aenter__: only an inactive context can be entered *)
 EnterO(c) == [a |-> "Enter", c |-> c, ev |-> <<>>, r |-> IF cstate[c] = "inactive" THEN "ok" ELSE "RuntimeError"]
